@@ -4,7 +4,8 @@ import WmModel.Relay
 open Wm Wm.Poison Wm.Relay
 
 /-!
-  Line protocol of C17 (strings hex, empty = `-`; metadata `k=v,k=v` sorted, empty = `-`; dest = ok | fail):
+  Line protocol of C17 (strings hex, empty = `-`; metadata `k=v,k=v` sorted, empty = `-`; dest = ok | fail | panic
+  – the destination publisher accepts / returns an error / panics; a panic is recovered by the Router, which Nacks):
 
     atoi <str>                                   →  <int> | err
     itoa <int>                                   →  <str>
@@ -67,7 +68,7 @@ def parseBit : String → Option Bool
   | "0" => some false | "1" => some true | _ => none
 
 def parseDest : String → Option POut
-  | "ok" => some .ok | "fail" => some (.fail []) | _ => none
+  | "ok" => some .ok | "fail" => some (.fail []) | "panic" => some (.panic []) | _ => none
 
 def parseMsg (u p m : String) : Option Msg := do pure ⟨(← hexDec u), (← hexDec p), (← parseMeta m)⟩
 
